@@ -258,6 +258,10 @@ Theorem C20_not_fn_static : forall v, notfn_static_m v = notfn_static_spec v.
 Proof. exact notfn_static_agree. Qed.
 Print Assumptions C20_not_fn_static.
 
+Theorem C20_make_pair_member_types : forall w, make_pair_member_m w = make_pair_member_spec w.
+Proof. exact make_pair_member_agree. Qed.
+Print Assumptions C20_make_pair_member_types.
+
 (* known finding KF-C20-tuple_cat-ctad: the result TYPE of tuple_cat comes from class template argument deduction *)
 Theorem C20_tuple_cat_result_kind_refuted : exists k, cat_result_kind_m k <> cat_result_kind_spec k.
 Proof. exact cat_result_kind_refuted. Qed.
